@@ -176,7 +176,7 @@ TReset ==
     /\ now' = 0 /\ store' = [r \in Res |-> NoEntry] /\ flight' = [r \in Res |-> NoFlight]
     /\ origin' = [r \in Res |-> [ver |-> Line.origin[r].ver, form |-> Line.origin[r].form, val |-> Line.origin[r].val]]
     /\ creq' = [c \in Clients |-> Idle] /\ contacts' = [x \in 1..MaxX |-> NoContact] /\ nextX' = 1
-    /\ served' = [r \in Res |-> {}] /\ last' = {} /\ pol' = [icc |-> IgnoreCC, fd |-> ForceDefault]
+    /\ served' = [r \in Res |-> {}] /\ last' = {} /\ pol' = [icc |-> IgnoreCC, fd |-> ForceDefault, age |-> DefaultAge]
     /\ l' = l + 1 /\ bad' = [line |-> 0] /\ UNCHANGED bads /\ TLCSet(1, [l |-> l + 1, bad |-> TLCGet(1).bad, bads |-> bads])
 
 \* once a behaviour has shown a difference, schedule and reality have parted: its remaining lines
@@ -234,13 +234,13 @@ TraceInit ==
     /\ now = 0 /\ store = [r \in Res |-> NoEntry] /\ flight = [r \in Res |-> NoFlight]
     /\ origin = [r \in Res |-> [ver |-> 1, form |-> "none", val |-> "none"]]
     /\ creq = [c \in Clients |-> Idle] /\ contacts = [x \in 1..MaxX |-> NoContact] /\ nextX = 1
-    /\ served = [r \in Res |-> {}] /\ last = {} /\ pol = [icc |-> IgnoreCC, fd |-> ForceDefault]
+    /\ served = [r \in Res |-> {}] /\ last = {} /\ pol = [icc |-> IgnoreCC, fd |-> ForceDefault, age |-> DefaultAge]
     /\ l = 1 /\ bad = [line |-> 0] /\ bads = <<>> /\ TLCSet(1, [l |-> 1, bad |-> [line |-> 0], bads |-> <<>>])
     /\ TLCSet(2, "init")
 \* the driver has set the two config cells (the line carries the values it wrote); a line that repeats the values in force
 \* (reality never diverges here: the driver always executes the step) changes nothing
 TPolicy == /\ Is("policy") /\ Judging
-           /\ IF <<Line.icc, Line.fd>> # <<pol.icc, pol.fd>> THEN SetPolicy(Line.icc, Line.fd)
+           /\ IF <<Line.icc, Line.fd, Line.age>> # <<pol.icc, pol.fd, pol.age>> THEN SetPolicy(Line.icc, Line.fd, Line.age)
               ELSE (UNCHANGED <<now, origin, store, flight, creq, contacts, nextX, served, pol>> /\ last' = {})
            /\ Consume
 TraceNext == TReset \/ TPolicy
